@@ -12,6 +12,10 @@ def _write_module(path, stmts):
            "class Obj(metaclass=MetaThreadSafeAttributes):", "  _attributes = ['x', 'y']", "",
            "class Other(metaclass=MetaThreadSafeAttributes):", "  _attributes = ['x']", "",
            "class Holder(metaclass=MetaThreadSafeAttributes):", "  _attributes = ['o']", "",
+           "class Eq(metaclass=MetaThreadSafeAttributes):", "  # objects that compare (and hash) equal are still different objects",
+           "  _attributes = ['x']", "  def __init__(self, key=1):", "    self.key = key",
+           "  def __eq__(self, other):", "    return isinstance(other, Eq) and other.key == self.key",
+           "  def __hash__(self):", "    return hash(self.key)", "",
            "def ident(z):", "  return z", ""]
   for k, s in enumerate(stmts):
     lines += ["def stmt_%d(a, b, t, v):" % k, "  _lock = None", "  " + s, "  return t, _lock", ""]
@@ -49,7 +53,20 @@ def load_statements(stmts, sched=None):
     mod.__path_of_file__ = path
     return mod
   finally:
-    mt.RLock, mt.ThreadSafeAttribute = saved["RLock"], saved["ThreadSafeAttribute"]
+    mt.ThreadSafeAttribute = saved["ThreadSafeAttribute"]
+    if sched is None:
+      mt.RLock = saved["RLock"]
+    else:
+      # a lock the code creates LATER (lazily, one per object) must be a cooperative shim too, or a thread would block for real while
+      # it holds the baton: the shim stays installed until the run's own finally restores it (restore_locks)
+      mod.__saved_rlock__ = saved["RLock"]
+
+
+def restore_locks(mod):
+  import miros.thread_safe_attributes as mt
+  r = getattr(mod, "__saved_rlock__", None)
+  if r is not None:
+    mt.RLock = r
 
 
 def lock_of(mod, cls="Obj", attr="x"):
@@ -71,7 +88,8 @@ def lock_state(lk):
 C27_FORMS = [("read", "t = a.x"), ("set", "a.x = v"), ("aug+", "a.x += v"), ("aug-", "a.x -= v"), ("aug*", "a.x *= v"),
              ("aug+y", "a.x += a.y"),          # two thread-safe attributes on one line
              ("sety", "a.y = v"), ("augy", "a.y += v"),
-             ("aug+nested", "b.o.x += v")]     # b.o is a thread-safe attribute holding `a`: x is reached through another attribute
+             ("aug+nested", "b.o.x += v"),     # b.o is a thread-safe attribute holding `a`: x is reached through another attribute
+             ("aug+other", "b.p.x += v"), ("set-other", "b.p.x = v")]   # the same attribute of ANOTHER object of the same class (b.p, a plain field)
 
 
 def c27_run(progs, policy, max_steps=800):
@@ -86,6 +104,9 @@ def c27_run(progs, policy, max_steps=800):
     a.x = 1
     a.y = 2
     b.o = a
+    a2 = mod.Obj()
+    a2.x = 3
+    b.p = a2
     dsched.CUR = sched
 
     def worker(ops):
@@ -96,16 +117,22 @@ def c27_run(progs, policy, max_steps=800):
     out = sched.run()
     lks = [lock_of(mod), lock_of(mod, "Obj", "y"), lock_of(mod, "Holder", "o")]
     dsched.CUR = None
-    final = [-1, -1]
+    final = [-1, -1, -1]
     if all(lk.owner is None for lk in lks):
-      fx, fy = a.x, a.y
-      final = [fx if isinstance(fx, int) else -1, fy if isinstance(fy, int) else -1]
-    return {"outcome": out, "final": final, "errors": len(sched.errors), "errs": sched.errors[:1],
-            "done": all(vt.state == "done" for vt in sched.threads), "lock_count": sum(lk.count for lk in lks), "schedule": [c[0] for c in sched.choices],
+      fx, fy, fx2 = a.x, a.y, a2.x
+      final = [fx if isinstance(fx, int) else -1, fy if isinstance(fy, int) else -1, fx2 if isinstance(fx2, int) else -1]
+    # locks the code may keep elsewhere (one per object) count too
+    extra = [v for o in (a, b, a2) for v in getattr(o, "__dict__", {}).values() if isinstance(v, shims.SRLock)]
+    return {"outcome": out, "final": final if not any(lk.owner is not None for lk in extra) else [-1, -1, -1], "errors": len(sched.errors), "errs": sched.errors[:1],
+            "done": all(vt.state == "done" for vt in sched.threads), "lock_count": sum(lk.count for lk in lks + extra), "schedule": [c[0] for c in sched.choices],
             "choices": list(sched.choices), "blocked": sched.blocked()}
   finally:
     sched.teardown()
     dsched.CUR = old
+    try:
+      restore_locks(mod)
+    except NameError:
+      pass
 
 
 # ------------------------------------------------------------------ C28
@@ -192,8 +219,8 @@ def c29_run(seed, n):
       if k == "aug" and len(insts) >= 1:
         # `a.attr += b.attr2` on one line, a and b any two objects (possibly the same one, possibly of different classes)
         na, nb = rng.choice(sorted(insts)), rng.choice(sorted(insts))
-        aa = "x" if type(insts[na]).__name__ == "Other" else rng.choice(["x", "y"])
-        ab = "x" if type(insts[nb]).__name__ == "Other" else rng.choice(["x", "y"])
+        aa = "x" if type(insts[na]).__name__ in ("Other", "Eq") else rng.choice(["x", "y"])
+        ab = "x" if type(insts[nb]).__name__ in ("Other", "Eq") else rng.choice(["x", "y"])
         try:
           getattr(mod, "stmt_%d" % AUG[(aa, ab)])(insts[na], insts[nb], 0, 0)
           ops.append(["aug", na, type(insts[na]).__name__, aa, getattr(insts[na], aa), "ok", nb, ab])
@@ -203,14 +230,14 @@ def c29_run(seed, n):
       if k == "aug":
         k = "new"
       if k == "new" or not insts:
-        cls = rng.choice(["Obj", "Other"])
+        cls = rng.choice(["Obj", "Other", "Eq"])
         nm = "%s%d" % (cls[0].lower(), len(insts) + 1)
         insts[nm] = getattr(mod, cls)()
         ops.append(["new", nm, cls, "", 0, "ok"])
         continue
       nm = rng.choice(sorted(insts))
       attr = "x" if nm.startswith("o") and nm[1:].isdigit() and type(insts[nm]).__name__ == "Other" else rng.choice(["x", "y"])
-      if type(insts[nm]).__name__ == "Other":
+      if type(insts[nm]).__name__ in ("Other", "Eq"):
         attr = "x"
       try:
         if k == "set":
